@@ -337,6 +337,16 @@ thread_local! {
     static TWIN: std::cell::Cell<Option<(usize, Sc)>> = const { std::cell::Cell::new(None) };
 }
 
+thread_local! {
+    static SYNTH_END_RNG_CALLS: std::cell::Cell<u64> = const { std::cell::Cell::new(0) };
+}
+
+/// RNG calls served (since the last reset) at the moment the last circuit
+/// synthesis on this thread finished: the prover must not draw before that.
+pub fn rng_calls_at_synthesis_end() -> u64 {
+    SYNTH_END_RNG_CALLS.with(|c| c.get())
+}
+
 pub fn set_twin(t: Option<(usize, Sc)>) {
     TWIN.with(|x| x.set(t));
 }
@@ -686,6 +696,7 @@ pub fn interpret(prog: &Program, tape: &Tape, c: &mut Composer) -> Result<(), Er
             }
         }
     }
+    SYNTH_END_RNG_CALLS.with(|c| c.set(crate::seams::rng_calls()));
     Ok(())
 }
 
